@@ -259,6 +259,20 @@ pub fn run(ctx: &Ctx, rep: &mut Report) {
                 for ep in &eps {
                     matrix(rep, &mut u, ep, &stranger, "with-allowance");
                 }
+                // renewing, lowering or re-dating the allowance b already has is the holder's call too
+                {
+                    let renewals = vec![
+                        Ep { valid: true, name: "token.approve", named: a.clone(), counterparty: Some(b.clone()), owner: Some(owner.clone()),
+                             call: { let (x, y) = (a.clone(), b.clone()); mk(Rc::new(move |cl, _| flat(cl.try_approve(&x, &y, &300, &(exp + 4000))))) }, other_args: vec![] },
+                        Ep { valid: true, name: "token.approve", named: a.clone(), counterparty: Some(b.clone()), owner: Some(owner.clone()),
+                             call: { let (x, y) = (a.clone(), b.clone()); mk(Rc::new(move |cl, _| flat(cl.try_approve(&x, &y, &100, &exp)))) }, other_args: vec![] },
+                        Ep { valid: true, name: "token.approve", named: a.clone(), counterparty: Some(b.clone()), owner: Some(owner.clone()),
+                             call: { let (x, y) = (a.clone(), b.clone()); mk(Rc::new(move |cl, _| flat(cl.try_approve(&x, &y, &0, &0)))) }, other_args: vec![] },
+                    ];
+                    for (i, ep) in renewals.iter().enumerate() {
+                        matrix(rep, &mut u, ep, &stranger, ["with-allowance,same-amount-later-expiry", "with-allowance,lower-amount", "with-allowance,revocation"][i]);
+                    }
+                }
                 // the holder has also granted allowances to the token contract itself and to the owner
                 {
                     let ck = u.checkpoint();
